@@ -43,6 +43,10 @@ check('C09', 'exploration', 'isolation flags observed at the save_results hook v
       'Every junction x reported step: isolated <=> no path of non-closed links to a source <=> zeroed results; connected => '
       'never flagged and (DD) full demand; each call of the C++ search compared with BFS on the same CSR arrays; a subset of '
       'cases repeated under the sanitizer build of network_isolation.cpp.', SIMNOTE, 'DESIGN.md#C09')
+check('C08', 'exploration', 'offline checker of leak demand vs Cd*A*sqrt(2gp) and the configured window per reported step, over run/reset/remove/continue histories',
+      'Every leaking junction/tank x reported step: leak == Cd*A*sqrt(2*g*p) while active and p>0, zero otherwise/outside the '
+      'window/after remove_leak; off-grid window edges are solved instants; node balance includes the leak; histories: single run, '
+      'run/reset/run, add+remove, run/remove/continue.', SIMNOTE, 'DESIGN.md#C08')
 
 NOT_YET = 'monitor not built yet in this commit (planned in DESIGN.md section 4)'
 ALL = ['C%02d' % i for i in range(1, 21)]
